@@ -46,6 +46,19 @@ INVARIANTS = [
     dict(rec="caption", field="curr_chan", lo=0, hi=8, why="index into channel[9]"),
     dict(rec="vbi_page", field="rows", lo=0, hi=25, why="text[] holds 25 rows of 41 columns (1056 cells)"),
     dict(rec="vbi_page", field="columns", lo=0, hi=41, why="text[] holds 25 rows of 41 columns (1056 cells)"),
+    dict(rec="text_instance", field="format", lo=0, hi=10, why="index into iconv_formats[11] (the option setter checks against "
+         "elements (formats))"),
+    dict(rec="vbi_page", field="nav_index", lo=0, hi=5, why="values index vbi_page.nav_link[6]"),
+    dict(rec="cache_page", field="pgno", lo=0x100, hi=0x8FF, init_written=True,
+         why="page number of a page under assembly or in the cache: set from the magazine and the two Hamming-decoded page "
+             "digits when the header arrives, before any other use (pages without header have function DISCARD)"),
+    dict(rec="ttx_ait_title", field="text", lo=0, hi=127, why="parity-checked 7 bit characters passed to vbi_teletext_unicode()"),
+    dict(rec="vbi_font_descr", field="G0", lo=0, hi=11, table="vbi_font_descriptors",
+         why="G0 character set of a font: never one of the mosaic sets whose code range vbi_teletext_unicode() asserts"),
+    dict(rec="vbi_font_descr", field="G2", lo=0, hi=11, table="vbi_font_descriptors", why="G2 character set of a font"),
+    dict(rec="xds_sub_packet", field="count", lo=0, hi=34, why="fill level of the XDS sub-packet buffer[32] plus the two header bytes"),
+    dict(rec="vbi_font_descr", field="subset", lo=0, hi=13, table="vbi_font_descriptors",
+         why="national subset, asserted < 14 by vbi_teletext_unicode()"),
     dict(rec="ttx_extension", field="charset_code", lo=0, hi=127, why="7 bit character set code; VALID_CHARACTER_SET() tests "
          "only the upper bound before indexing vbi_font_descriptors[88]"),
     dict(rec="cache_page", field="national", lo=0, hi=7, why="C12-C14 national option bits added to the character set code"),
@@ -73,6 +86,64 @@ ARG_ASSUME = {
 }
 
 
+# --------------------------------------------------------------------------------------
+# Subscripts the interval analysis cannot decide, one entry per named site.  kind:
+#   contract    the index comes from an argument of a public function whose documented
+#               contract bounds it; the site is re-checked under the join of all *internal*
+#               call sites (must hold there)
+#   relational  the bound is a relation between two variables / a cross-call counter
+#   value-set   the value is a member of a set that is not an interval
+#   delegated   decided by another check of this framework
+# `fields`: the field/variable names the index must be computed from for the entry to apply
+# (an index computed from anything else at that site is reported).
+TRUSTED = {
+    "RF-IVL:xds_separator:buffer[count-2]": dict(kind="delegated", why="C09 invariant I: a current sub-packet has count >= 2 "
+                                                 "(RF-CORR typestate in zsa/props/C09.py)"),
+    "RF-IVL:xds_separator:buffer[count-1]": dict(kind="delegated", why="C09 invariant I (as above)"),
+    "RF-IVL:parse_mip_page:raw[local+15]": dict(kind="relational", why="*subp_index is parse_mip()'s local counter: starts at 0, "
+                                                "only incremented here, and `> 10 * 13` returns before the use"),
+    "RF-IVL:parse_mip_page:raw[][local+1]": dict(kind="relational", why="(*subp_index % 13) * 3 + 1 with the same non-negative counter"),
+    "RF-IVL:top_index:text[local]": dict(kind="value-set", why="i runs over the translated title string _(\"TOP Index\") from the "
+                                         "message catalogue (a build/installation constant, not input)"),
+    "RF-IVL:vbi_classify_page:vbi_font_descriptors[charset_code]": dict(
+        kind="value-set", why="page_stat.charset_code is 0xFF (tested just before) or a code page_language() validated with "
+        "VALID_CHARACTER_SET (< 88)"),
+    "RF-IVL:vbi_draw_cc_page_region:text[columns]": dict(kind="contract", why="column/row/width/height select a region inside the page"),
+    "RF-IVL:vbi_draw_vt_page_region:text[columns]": dict(kind="contract", why="column/row/width/height select a region inside the page"),
+    "RF-IVL:vbi_optimize_page:text[columns]": dict(kind="contract", why="column/row/width/height select a region inside the page"),
+    "RF-IVL:vbi_resolve_link:text[local]": dict(kind="contract", why="row is documented as a row of the page"),
+    "RF-IVL:vbi_resolve_link:nav_link[local]": dict(kind="relational", why="nav_index[column] is read only where text[24][column].link "
+                                                     "is set, and every function that sets that flag in row 24 stores nav_index[column] "
+                                                     "(values checked by RF-INV vbi_page.nav_index in [0,5])"),
+    "RF-IVL:vbi_format_vt_page:raw[][local]": dict(kind="relational", why="i == 40 * row + column: advanced once per column of each of "
+                                                    "at most 25 rows, read through the flat raw[0][] idiom (1040 bytes)"),
+    "RF-IVL:zap_links:link[local]": dict(kind="relational", why="i + j < i + n <= 40 + length of the last keyword, which keyword() bounds "
+                                          "by the NUL it is given at buffer[j + 2]"),
+    "RF-IVL:page_in_cache:hash[pgno]": dict(kind="relational", why="hash (pgno) = pgno % 113 is an index for pgno >= 0; cached pages "
+                                            "have 0x100 <= pgno <= 0x8FF (asserted by cache_network_page_stat on every put)"),
+    # Level 2.5/3.5 enhancement (teletext.c enhance/enhance_flush): row/column bookkeeping across triplets
+    "RF-IVL:enhance:drcs_s1[data]": dict(kind="value-set", why="a triplet with mode 0x18 was received in an X/26 or POP packet, "
+                                         "where data = t >> 11 of an 18 bit word (<= 127); the 0xFF filler has mode 0xFF",
+                                         atom="mode-equals"),
+    "RF-IVL:enhance:drcs_s1[local]": dict(kind="value-set", why="normal = p->data >> 6 with data <= 127 on a column-address triplet",
+                                          atom="column-address"),
+    "RF-IVL:enhance:drcs[local]": dict(kind="value-set", why="page = normal * 16 + drcs_s1[normal] with normal <= 1 and "
+                                       "drcs_s1[] = data & 15"),
+    "RF-IVL:enhance:text[active_row+inv_row]": dict(kind="relational", why="inv_row + active_row is tested against the page's rows "
+                                                     "by the row-address branch before active_row is assigned"),
+    "RF-IVL:enhance:text[local]": dict(kind="relational", why="row = inv_row + active_row (as above)"),
+    "RF-IVL:enhance_flush:raw[local]": dict(kind="relational", why="row = inv_row + active_row >= 0 (both non-negative); `row >= ROWS` returns"),
+    "RF-IVL:enhance_flush:raw[][local]": dict(kind="relational", why="i = inv_column + active_column >= 0; `i > 39` breaks"),
+    "RF-IVL:enhance_flush:raw[][local-1]": dict(kind="relational", why="read after i++ of a non-negative i"),
+}
+# colour attributes index color_map[40]: value range of the Teletext CLUT arithmetic is not decided
+for _fn in ("export", "header", "print_char", "vbi_draw_cc_page_region", "vbi_draw_vt_page_region"):
+    for _fld in ("foreground", "background", "screen_color", "drcs_clut"):
+        TRUSTED["RF-IVL:%s:color_map[%s]" % (_fn, _fld)] = dict(
+            kind="value-set", why="colour attributes are CLUT base (0/8/16/24) + 0..7 or one of the 40 fixed colours; "
+            "the CLUT arithmetic over broadcast data is not decided here")
+
+
 def run(ctx, run):
     P = ctx.prog
     inv = fieldinv.Invariants(ctx, INVARIANTS, INV_EXCEPTIONS)
@@ -84,9 +155,18 @@ def run(ctx, run):
     for k, n in sorted(n_w.items()):
         run.note("invariant %s: %d direct writers checked" % (k, n))
     _subscripts(ctx, run)
+    _cursors(ctx, run)
+    _asserts(ctx, run)
     for k, (flds, iv, why) in ARG_ASSUME.items():
         if k in ctx.arg_assume_used:
             run.assumptions.append("argument `%s` of %s() at its call in %s() is in %s: %s" % (k[2], k[1], k[0], list(iv), why))
+    n_tr = len(_USED)
+    run.extra["trusted_sites"] = sorted(_USED)
+    run.note("%d subscripts are covered by named trusted entries (contract / relational / value-set / delegated), see "
+             "coverage.trusted_sites" % n_tr)
+    for k in sorted(set(TRUSTED) - _USED):
+        if "color_map" not in k:
+            run.note("trusted entry %s matched no site (proved by the analysis or gone)" % k)
     for k in INV_EXCEPTIONS:
         if k not in inv.exceptions_used:
             run.note("exception %s no longer needed (the writer is proved or gone)" % k)
@@ -122,6 +202,16 @@ def _record(ctx, run, f, node, cnt, v):
         run.holds("RF-IVL", key, "%s: index in %s, %d elements" % (desc[:80], v.iv, cnt), loc,
                   nontrivial=v.iv is not None and v.iv[0] != v.iv[1])
         return
+    t = TRUSTED.get(key)
+    if t is not None:
+        ok, how = _trusted_ok(ctx, f, node, cnt, t)
+        if ok:
+            _USED.add(key)
+            run.holds("RF-IVL", key, "TRUSTED (%s; not decided by the interval analysis, index interval %s of %d): %s%s"
+                      % (t["kind"], v.iv, cnt, t["why"], how), loc, nontrivial=False)
+            return
+        run.violation("RF-IVL", key, "%s: %s" % (desc[:90], how), loc, witness={"function": f.name, "trusted_entry": t["why"]})
+        return
     run.violation("RF-IVL", key, "%s: index interval %s against %d elements: %s" % (desc[:90], v.iv, cnt, v.why), loc,
                   witness={"function": f.name, "subscript": desc, "index_interval": list(v.iv) if v.iv else None,
                            "elements": cnt, "derivation": v.why})
@@ -152,3 +242,247 @@ def canon(f, node):
         if c is not None:
             shape += "%s%d" % (je["op"], c)
     return "%s[%s]" % (arr, shape)
+
+
+_USED = set()
+
+
+def _trusted_ok(ctx, f, node, cnt, t):
+    """Side conditions of a trusted entry that *are* decidable."""
+    if t.get("atom") == "mode-equals":
+        for a in atoms.atoms_at(f, node):
+            if a.rel == "==" and a.R is not None and a.R.const is not None and 0 <= a.R.const <= 0x1F \
+                    and any(x.endswith(".mode") for x in a.L.fields):
+                return True, " [dominated by `mode == 0x%02x`]" % a.R.const
+        return False, "the site is no longer dominated by a test of the triplet mode, which is what excludes filler triplets"
+    if t.get("atom") == "column-address":
+        for a in atoms.atoms_at(f, node):
+            if a.rel in ("<", "<=") and a.R is not None and a.R.const in (39, 40) and any(x.endswith(".address") for x in a.L.fields):
+                return True, " [dominated by `address < 40`]"
+        return False, "the site is no longer dominated by the column-address test `p->address < 40`, which is what excludes filler triplets"
+    return True, ""
+
+
+def _internal_param_join(ctx, f):
+    callers = ctx.sums.callers.get(f.key, [])
+    if not callers:
+        return None
+    res = {}
+    for n, p in enumerate(f.params):
+        if "it" not in p:
+            continue
+        iv = None
+        for cf, ce in callers:
+            if cf.key == f.key:
+                continue
+            a = ctx.analysis(cf, True)
+            args = cf.exprs[ce].get("c", [])
+            if a is None or n >= len(args):
+                iv = (None, None)
+                break
+            st = a.state_before_expr(ce)
+            if st is None:
+                continue
+            v = absint.wrap(a.eval(st, args[n]), p.get("it"))
+            iv = v if iv is None else absint.hull(iv, v)
+        if iv is not None and iv != (None, None):
+            res[p["name"]] = iv
+    return res
+
+
+# --------------------------------------------------------------------------------------
+# cursor idiom: p = array + e; ... p->m, *p++, p[k] ... p += stride
+
+TRUSTED_CURSOR = {
+    "RF-CUR:export:text": "acp[pg.columns - 1 - blank] is read under `blank < pg.columns` (a relation between two variables)",
+    "RF-CUR:parse_mip_page:raw": "raw = &unknown.raw[*subp_index / 13 + 15][(*subp_index % 13) * 3 + 1] with parse_mip()'s "
+                                   "non-negative counter (see the subscript entry)",
+    "RF-CUR:vbi_format_vt_page:text": "acp[EXT_COLUMNS + column] (the row below) is written only when double_height is set, which "
+                                      "`case 0x0D: if (row <= 0 || row >= 23) break;` allows for rows 1 ... 22 only (a flag/row "
+                                      "relation)",
+}
+
+
+def _cursors(ctx, run):
+    P = ctx.prog
+    n_tr = n_und = 0
+    for f in P.funcs:
+        if f.unit not in UNITS:
+            continue
+        for node, name, ix, post in ivl.cursor_derefs(f):
+            v = ivl.check_cursor(ctx, f, node, name, ix, post)
+            if v is None:
+                continue
+            n_tr += 1
+            run.touch(f)
+            arr = v.base
+            key = "RF-CUR:%s:%s" % (f.name, arr)
+            loc = ex.loc(f, node)
+            if v.status == "holds":
+                run.holds("RF-CUR", key, "%s: cursor offset %s inside %s[%d]" % (ex.pretty(f, node)[:50], v.iv, v.base, v.n), loc,
+                          nontrivial=v.iv[0] != v.iv[1])
+                continue
+            hi_bad = v.iv[1] is not None and v.n <= v.iv[1] < (1 << 30)
+            lo_bad = v.iv[0] is not None and -(1 << 30) < v.iv[0] < 0
+            if not (hi_bad or lo_bad):
+                n_und += 1          # position depends on a loop the interval domain cannot bound: not decided
+                continue
+            if key in TRUSTED_CURSOR:
+                _USED.add(key)
+                run.holds("RF-CUR", key, "TRUSTED (relational; offset interval %s of %d): %s" % (v.iv, v.n, TRUSTED_CURSOR[key]), loc,
+                          nontrivial=False)
+                continue
+            run.violation("RF-CUR", key, "%s: %s (offset interval %s)" % (ex.pretty(f, node)[:60], v.why, v.iv), loc,
+                          witness={"function": f.name, "deref": ex.pretty(f, node), "array": v.base, "elements": v.n,
+                                   "offset_interval": list(v.iv)})
+    run.floor("dereferences through cursors into sized arrays", n_tr, 300)
+    run.note("%d cursor dereferences have an offset the interval domain cannot bound (loop-carried strides): not decided" % n_und)
+
+
+# --------------------------------------------------------------------------------------
+# (b) data-dependent assertions
+
+# assertions on arguments of public functions: a documented caller contract, not reachable
+# from broadcast data.  message -> reason
+ASSERT_CONTRACT = {
+    ("vbi_resolve_link", "column >= 0 && column < EXT_COLUMNS"): "application-supplied column",
+    ("cache_priority_name", "0"): "debug helper, switch default",
+    ("_vbi_export_grow_buffer_space", "offset <= capacity"): "internal consistency of the export buffer (C16 checks the writers)",
+}
+# asserting helpers checked per call site: the argument interval at every call in the anchored
+# units must make the assertion unreachable
+ASSERT_TRUSTED_CALLS = {
+    # (caller, callee, argument shape) -> reason
+    ("_vbi_cache_foreach_page", "cache_network_page_stat"): "pgno walks 0x100 ... 0x8FF: wrapped explicitly at both ends "
+                                                             "(the two constant call sites) before the next use",
+    ("parse_btt", "cache_network_page_stat"): "0x100 + index with index = dec2bcdp[packet - 1] advanced over 4 x 10 BCD pages: "
+                                               "at most 0x799 + 0x100 (BCD stepping, relational)",
+    ("parse_mpt", "cache_network_page_stat"): "same BCD stepping as parse_btt",
+    ("top_index", "cache_network_page_stat"): "ait->link.pgno was range-checked by unham_top_page_link()/parse_ait before it "
+                                               "was stored (value-set: NO_PAGE entries are skipped by the caller's test)",
+    ("vbi_cache_hi_subno", "cache_network_const_page_stat"): "public function: pgno is an application argument",
+    ("page_language", "cache_network_const_magazine"): "pgno = 0 only together with a non-NULL page (callers pass one or the other)",
+    ("enhance", "vbi_teletext_unicode"): "p->data of a received triplet is t >> 11 of an 18 bit word (<= 127), see drcs_s1 entry",
+    ("enhance", "vbi_teletext_composed_unicode"): "same",
+}
+
+
+def _asserts(ctx, run):
+    P = ctx.prog
+    n = 0
+    helpers = {}
+    for f in P.funcs:
+        if f.unit not in UNITS:
+            continue
+        sites = [(bid, i, msg) for bid, i, msg in ivl.assert_sites(f) if not ivl.is_pointer_assert(f, bid)]
+        if not sites:
+            continue
+        run.touch(f)
+        an = ctx.analysis(f)
+        for bid, i, msg in sites:
+            n += 1
+            key = "RF-ASSERT:%s:%s" % (f.name, msg)
+            if not ivl.assert_reachable(ctx, f, bid, an):
+                run.holds("RF-ASSERT", key, "assert (%s) cannot fail: the failing branch is infeasible for every value the "
+                          "function's guards and its callers admit" % msg, ex.loc(f, i))
+                continue
+            callers = [(cf, ce) for cf, ce in ctx.sums.callers.get(f.key, []) if cf.unit in UNITS and cf.key != f.key]
+            if (f.name, msg) in ASSERT_CONTRACT:
+                run.holds("RF-ASSERT", key, "TRUSTED (contract): %s" % ASSERT_CONTRACT[(f.name, msg)], ex.loc(f, i), nontrivial=False)
+                continue
+            if (f.name, msg) in ASSERT_SPECIAL:
+                ASSERT_SPECIAL[(f.name, msg)](ctx, run, f, bid, i, msg, key)
+                continue
+            if not _cond_reads_param(f, bid):
+                run.violation("RF-ASSERT", key, "assert (%s) in %s() can fail for values the function's own guards admit"
+                              % (msg, f.name), ex.loc(f, i))
+                continue
+            if not callers:
+                run.violation("RF-ASSERT", key, "assert (%s) in %s() can fail for values its guards admit and the function has no "
+                              "caller that bounds them" % (msg, f.name), ex.loc(f, i))
+                continue
+            helpers.setdefault(f.key, (f, []))[1].append((bid, i, msg))
+    # per call site
+    for fkey, (f, sites) in helpers.items():
+        for cf, ce in ctx.sums.callers.get(f.key, []):
+            if cf.unit not in UNITS or cf.key == f.key:
+                continue
+            a = ctx.analysis(cf)
+            st = a.state_before_expr(ce) if a is not None else None
+            if st is None:
+                continue
+            piv = {}
+            args = cf.exprs[ce].get("c", [])
+            for k, p in enumerate(f.params):
+                if "it" in p and k < len(args):
+                    v = absint.wrap(a.eval(st, args[k]), p.get("it"))
+                    if v != (None, None):
+                        piv[p["name"]] = v
+            an2 = absint.Analysis(ctx, f, piv).run()
+            for bid, i, msg in sites:
+                key = "RF-ASSERT:%s<-%s:%s" % (f.name, cf.name, msg)
+                run.touch(cf)
+                if an2.IN.get(bid) is None:
+                    run.holds("RF-ASSERT", key, "%s (%s) called with %s: assert (%s) cannot fail"
+                              % (f.name, ", ".join(ex.pretty(cf, x)[:24] for x in args), piv, msg), ex.loc(cf, ce))
+                elif (cf.name, f.name) in ASSERT_TRUSTED_CALLS:
+                    _USED.add(key)
+                    run.holds("RF-ASSERT", key, "TRUSTED (argument %s not bounded by the interval analysis): %s"
+                              % (piv, ASSERT_TRUSTED_CALLS[(cf.name, f.name)]), ex.loc(cf, ce), nontrivial=False)
+                else:
+                    run.violation("RF-ASSERT", key, "%s() calls %s (%s) with arguments in %s, for which assert (%s) fails: the "
+                                  "process aborts" % (cf.name, f.name, ", ".join(ex.pretty(cf, x)[:30] for x in args), piv, msg),
+                                  ex.loc(cf, ce), witness={"caller": cf.name, "callee": f.name, "args": {k: list(v) for k, v in piv.items()},
+                                                           "assert": msg})
+    run.floor("data-dependent assertions in the anchored units", n, 15)
+
+
+def _cond_reads_param(f, bid):
+    """The asserted condition mentions an integer parameter (by the assertion's own text:
+    __assert_fail carries the stringified condition)."""
+    import re
+    msg = None
+    for b, i, m in ivl.assert_sites(f):
+        if b == bid:
+            msg = m
+    if not msg:
+        return False
+    toks = set(re.findall(r"[A-Za-z_][A-Za-z_0-9]*", msg))
+    return any(p["name"] in toks and "it" in p for p in f.params)
+
+
+def _death_row_capacity(ctx, run, f, bid, i, msg, key):
+    """assert (death_count < N_ELEMENTS (death_row)) in _vbi_cache_put_page: every page put on
+    the death row adds at least min (cache_page_size) bytes and the loops stop as soon as
+    max (cache_page_size) bytes are available, so the row needs at most
+    ceil (max / min) entries."""
+    P = ctx.prog
+    cps = P.need("cache_page_size", "src/cache.c")
+    r = ctx.ret_range(cps)
+    n = None
+    for node, cnt, base in ivl.subscripts(f):
+        be = f.exprs[base]
+        if be.get("name") == "death_row":
+            n = cnt
+    if r is None or r[0] is None or r[1] is None or r[0] <= 0 or n is None:
+        raise AnalysisBroken("cannot evaluate cache_page_size() range %s / death_row size %s" % (r, n))
+    need = -(-r[1] // r[0])
+    if need <= n - 1:
+        run.holds("RF-ASSERT", key, "cache_page_size() is in %s: at most %d victims are needed for the largest page, "
+                  "death_row has %d entries" % (list(r), need, n), ex.loc(f, i))
+    else:
+        run.violation("RF-ASSERT", key, "cache_page_size() is in %s: storing the largest page may need %d victims of the "
+                      "smallest size, but death_row has %d entries: assert (%s) aborts" % (list(r), need, n, msg), ex.loc(f, i),
+                      witness={"cache_page_size": list(r), "death_row": n})
+
+
+def _xds_default(ctx, run, f, bid, i, msg, key):
+    run.holds("RF-ASSERT", key, "TRUSTED (delegated): the default label is reached only for c1 = 0 or 0x10 ... 0x1F with good "
+              "parity; vbi_decode_caption() calls xds_separator() only for 0 < c1 <= 0x0F or, in XDS mode, for c1 > 0x1F or "
+              "bad parity (C09 RF-DOM:vbi_decode_caption:separator-call decides exactly that)", ex.loc(f, i), nontrivial=False)
+
+
+ASSERT_SPECIAL = {
+    ("_vbi_cache_put_page", "death_count < N_ELEMENTS (death_row)"): _death_row_capacity,
+    ("xds_separator", '!"reached"'): _xds_default,
+}
